@@ -28,10 +28,12 @@ META = dict(
     exhaustive=True,
     bounds=dict(quick='22 single features + all 231 pairs, edit histories of length <= 1 on every state and length 2 on the 22 '
                       'single-feature lenses (9 edits)',
-                thorough='edit histories of length 2 on every pair, 4 numeric variants'),
+                thorough='edit histories of length 2 on every pair, 2 numeric variants'),
     tolerances=dict(rays='bit-identical for the dict round trip and for JSON (repr round-trips doubles)', state='canonical, 12 digits'),
     assumptions=['scatter models are compared at dictionary / canonical level only (their kernels use an RNG the harness does not own)'],
 )
+
+THOROUGH_VARIANTS = 2
 
 FEATURES = ['sphere', 'conic', 'asphere', 'polynomial', 'chebyshev', 'mirror', 'catalogue-glass', 'abbe-glass', 'absorbing-ideal',
             'simple-coating', 'fresnel-coating', 'lambertian', 'gaussian-bsdf', 'aperture', 'obscuration', 'vignetting', 'pol-state',
